@@ -1,7 +1,7 @@
 """C03 - the coding graph is the largest closed sub-graph, or a ValueError (DESIGN.md section 4, C03)."""
 import numpy as np
 
-from vlib import clock, graphs as G, gens
+from vlib import alias, clock, graphs as G, gens
 from vlib.base import import_dsw
 from vlib.coding import monitored, ArgGuard
 from vlib.proxies import frozen
@@ -132,6 +132,18 @@ def generate(ctx):
             a, c = rng.sample([0, 1, 2, 3], 2)
             yield "generate", dict(k=k, mask=G.mask_to_hex(_at_most_one_mask(k, a, c)), t=rng.choice([1, 1, 2]), dtype=rng.choice(["bool", "int64"]), fam="tiny-at-large-order")
         j += 1
+    if ctx.shard == 1 or (not ctx.quick() and ctx.shard in (2, 3)):
+        # a dense mask at order 9 in which one round of trimming removes exactly one vertex out of 262 144
+        k9 = 9 if ctx.shard != 3 else 8
+        n9 = 4 ** k9
+        v = rng.randrange(n9)
+        t9 = rng.choice([2, 3])
+        excluded = {(v * 4 + j) % n9 for j in rng.sample(range(4), 4 - (t9 - 1))}          # v keeps t-1 successors ...
+        excluded |= {v % (n9 // 4) + j * (n9 // 4) for j in range(4)} - {v}                 # ... and is the only vertex that does
+        bits = (1 << n9) - 1
+        for d in excluded:
+            bits &= ~(1 << d)
+        yield "generate", dict(k=k9, mask="%x" % bits, t=t9, dtype=rng.choice(["bool", "int64"]), fam="near-full-large-order")
     both = True
     for m in range(65536):
         if not ctx.mine(m):
@@ -214,7 +226,21 @@ def check_generate(ctx, case):
     want = G.induced(k, S)
     fm = frozen(mask)
     guard = ArgGuard(vertices=fm)
+    if ctx.rng.random() < (0.03 if case["fam"] == "exhaustive" else 0.4) and k <= 6:
+        # G3 noise: a caller asks for predecessor / successor lists and edits what it was handed, before the checked call
+        for v in (range(n) if n <= 64 else [ctx.rng.randrange(n) for _ in range(8)]):
+            alias.caller_edit(dsw.obtain_formers(v, k), ctx.rng)
+            alias.caller_edit(dsw.obtain_latters(v, k), ctx.rng)
+            alias.caller_edit(dsw.obtain_formers(current=v, observed_length=k), ctx.rng)
+            alias.caller_edit(dsw.obtain_latters(current=v, observed_length=k), ctx.rng)
+        ctx.cls("preceded by edited predecessor/successor lists")
     out = _call(ctx, dsw, k, fm, t)
+    if out.kind == "ok" and ctx.rng.random() < (0.02 if case["fam"] == "exhaustive" else 0.3):
+        # G1: the caller edits the returned graph in place (as remove_nasty_arc does); the same request must not change
+        checked, same, second = alias.repeat_after_scramble(dsw.connect_coding_graph, (k, fm, t), {}, out.value)
+        if checked:
+            ctx.cls("repeated after the returned graph was scrambled")
+            out = _call(ctx, dsw, k, fm, t)
     nontrivial = (len(S) < len(S0)) or not S
     tag = "t%d|%s" % (t, "empty" if not S else "nonempty")
     if out.kind == "budget":
@@ -255,7 +281,7 @@ def check_generate(ctx, case):
     if ch:
         ctx.fail("argument-modified", "changed: %s" % ch)
     ctx.cls(tag)
-    if case["fam"] in ("long-cycle", "tiny-at-large-order", "deep-sweeps"):
+    if case["fam"] in ("long-cycle", "tiny-at-large-order", "deep-sweeps", "near-full-large-order"):
         ctx.cls("family|" + case["fam"])
         ctx.obs("largest order generated", k)
     ctx.cls("rounds|%d" % min(rounds, 6))
@@ -265,8 +291,11 @@ def check_generate(ctx, case):
         if Sdeg != S:
             ctx.cls("t1|information-free structure removed")
     # latter-map route, t >= 2
-    if t >= 2 and S0:
-        lm_out = monitored(_latter_route, 400 * n * (n + 8) + 20000, dsw, k, frozen(mask), t)
+    if t >= 2 and S0 and n <= 4096:     # remove_useless is quadratic in the number of vertices: orders <= 6 only
+        shuffled = ctx.rng.random() < 0.3
+        lm_out = monitored(_latter_route, 400 * n * (n + 8) + 20000, dsw, k, frozen(mask), t, ctx.rng if shuffled else None)
+        if shuffled:
+            ctx.cls("latter-map-route|map written in arbitrary order")
         if lm_out.kind != "ok":
             ctx.fail("latter-map-route-" + lm_out.kind, "latter_map_to_accessor(..., threshold=%d) %s (k=%d mask=%s)" % (t, lm_out.describe(), k, case["mask"]))
         elif not np.array_equal(np.asarray(lm_out.value), want):
@@ -323,9 +352,18 @@ def _latter_sequence(dsw, k, mask):
     return guards.digest(lm) != d0, out
 
 
-def _latter_route(dsw, k, mask, t):
+def _latter_route(dsw, k, mask, t, rng=None):
     valid = dsw.connect_valid_graph(k, mask)
     lm = dsw.accessor_to_latter_map(valid)
+    if rng is not None:          # the same map written down in another order (keys and follower lists)
+        keys = list(lm)
+        rng.shuffle(keys)
+        hand = {}
+        for a in keys:
+            row = [int(x) for x in lm[a]]
+            rng.shuffle(row)
+            hand[int(a)] = row
+        lm = hand
     return dsw.latter_map_to_accessor(lm, k, threshold=t)
 
 
@@ -343,7 +381,9 @@ def floors(agg, tier):
     for name, need in (("t1|information-free structure removed", 500), ("latter-map-route|checked", 1000),
                        ("monotonicity|checked", 500), ("rounds|3", 50),
                        ("latter-map-route|one map object trimmed at 4, 3, 2 in turn", 500), ("family|long-cycle", 4),
-                       ("family|tiny-at-large-order", 3), ("family|deep-sweeps", 10)):
+                       ("family|tiny-at-large-order", 3), ("family|deep-sweeps", 10), ("family|near-full-large-order", 1),
+                       ("latter-map-route|map written in arbitrary order", 500), ("repeated after the returned graph was scrambled", 300),
+                       ("preceded by edited predecessor/successor lists", 300)):
         if c.get(name, 0) < need:
             out.append("%s observed %d < %d" % (name, c.get(name, 0), need))
     return out
